@@ -60,6 +60,7 @@ Definition vstep (w : wworld) (p : path) (v : vstate) (o : obs) : vstate :=
       | Some r0 => (Some (mkWd (wd_acc r0) (wd_contents r0) (mk_key ans)
                             (match wd_state r0 with SFileNeedModKey => SFileHasModKey | s => s end)), d)
       end
+  | OKind _ _ => v
   end.
 
 Lemma lookup_cons_eq {A} p (x : A) l : lookup p ((p, x) :: l) = Some x.
@@ -67,7 +68,7 @@ Proof. simpl. now rewrite Z.eqb_refl. Qed.
 
 Lemma view_step_same w f o : view (obs_path o) (step_obs w f o) = vstep w (obs_path o) (view (obs_path o) f) o.
 Proof.
-  unfold view. destruct o as [d|d n|d|p|p]; cbn [obs_path step_obs vstep].
+  unfold view. destruct o as [d|d n|d|p|p|d n]; cbn [obs_path step_obs vstep]; [| | | | |reflexivity].
   - unfold op_readdir. destruct (lookup d (wf_dirs f)) as [x|] eqn:E; [now rewrite E|].
     cbn [wf_data wf_dirs]. now rewrite !lookup_cons_eq.
   - unfold op_get. destruct (lookup d (wf_dirs f)) as [[names|]|] eqn:E; try (now rewrite E).
@@ -85,7 +86,7 @@ Proof.
   intro Hne. unfold view.
   assert (L : forall A (x : A) l, lookup p ((obs_path o, x) :: l) = lookup p l)
     by (intros; now apply lookup_cons_ne).
-  destruct o as [d|d n|d|q|q]; cbn [obs_path step_obs] in *.
+  destruct o as [d|d n|d|q|q|d n]; cbn [obs_path step_obs] in *; [| | | | |reflexivity].
   - unfold op_readdir. destruct (lookup d (wf_dirs f)); [reflexivity|]. cbn [wf_data wf_dirs]. now rewrite !L.
   - unfold op_get. destruct (lookup d (wf_dirs f)) as [[names|]|]; try reflexivity.
     unfold upd_acc. destruct (lookup d (wf_data f)) as [r|]; [|reflexivity].
@@ -209,16 +210,20 @@ Qed.
 
 Lemma answer_eqb_refl a : answer_eqb a a = true.
 Proof.
-  destruct a as [b|[b|]|[l|]|[c|]|b]; simpl; try reflexivity.
+  destruct a as [b|[b|]|[l|]|[c|]|b|k [t|]]; simpl; try reflexivity.
   - now destruct b.
   - now destruct b.
   - now apply names_eqb_eq.
   - apply Z.eqb_refl.
   - now destruct b.
+  - now rewrite !Z.eqb_refl.
+  - now rewrite Z.eqb_refl.
 Qed.
 
 Definition is_dir_op (o : obs) : bool :=
-  match o with OReadDir _ | OGet _ _ | OSortedKeys _ => true | _ => false end.
+  match o with OReadDir _ | OGet _ _ | OSortedKeys _ | OKind _ _ => true | _ => false end.
+
+Definition is_kind_op (o : obs) : bool := match o with OKind _ _ => true | _ => false end.
 
 (* ---------- one directory ---------- *)
 Section Dir.
@@ -241,7 +246,10 @@ Section Dir.
     is_dir_op o = true -> dir_inv v done -> dir_inv (vstep w p v o) (done ++ [o]).
   Proof.
     intros Hd (a & Hv & Hp & Ha & Hg & Hs). subst v.
-    destruct o as [d|d n|d|q|q]; try discriminate; cbn [vstep]; unfold dir_inv.
+    destruct o as [d|d n|d|q|q|d n]; try discriminate; cbn [vstep]; unfold dir_inv.
+    4: { exists a. repeat split; auto.
+         - intros d0 n0 names Hin. apply in_app_or in Hin as [Hin|[Hin|[]]]; [eauto|discriminate].
+         - intros d0 names Hin. apply in_app_or in Hin as [Hin|[Hin|[]]]; [eauto|discriminate]. }
     - exists a. repeat split; auto.
       + intros d0 n names Hin. apply in_app_or in Hin as [Hin|[Hin|[]]]; [eauto|discriminate].
       + intros d0 names Hin. apply in_app_or in Hin as [Hin|[Hin|[]]]; [eauto|discriminate].
@@ -287,9 +295,9 @@ Section Dir.
   (* the observations of one directory are covered by its record *)
   Lemma dir_covered v done r :
     dir_inv v done -> fst v = Some r -> dirty1 w' p (finalize1 w p r) = false ->
-    forall o, In o done -> obs_path o = p -> is_dir_op o = true -> answer_of w o = answer_of w' o.
+    forall o, In o done -> obs_path o = p -> is_dir_op o = true -> is_kind_op o = false -> answer_of w o = answer_of w' o.
   Proof.
-    intros (a & Hv & Hp & Ha & Hg & Hs) Hr Hc o Hin Hpath Hd. subst v. simpl in Hr. inversion Hr; subst r; clear Hr.
+    intros (a & Hv & Hp & Ha & Hg & Hs) Hr Hc o Hin Hpath Hd Hnk. subst v. simpl in Hr. inversion Hr; subst r; clear Hr.
     unfold finalize1, dirty1 in Hc. cbn [wd_state wd_acc] in Hc.
     destruct (ww_readdir w p) as [names|] eqn:R; cbn [dir_state] in Hc.
     - cbn in Hc. destruct (ww_readdir w' p) as [names'|] eqn:R'; [|discriminate].
@@ -306,14 +314,14 @@ Section Dir.
           destruct (Bool.eqb (name_in (lower n) (map lower names)) (name_in (lower n) (map lower names'))) eqn:Q.
           + now apply Bool.eqb_prop in Q.
           + exfalso. apply Ex. eexists. split; [exact Hb'|]. cbn [fst snd]. now rewrite Q. }
-      destruct o as [d|d n|d|q|q]; try discriminate; cbn [obs_path] in Hpath; subst d; cbn [answer_of]; rewrite R, R'.
+      destruct o as [d|d n|d|q|q|d n]; try discriminate; cbn [obs_path] in Hpath; subst d; cbn [answer_of]; rewrite R, R'.
       + reflexivity.
       + now rewrite Hmem.
       + destruct (ac_all a) as [l|] eqn:A.
         * apply negb_false_iff in Hc. apply names_eqb_eq in Hc. rewrite Hc. f_equal. f_equal. symmetry. now apply (Ha l names).
         * exfalso. now apply (Hs p names Hin eq_refl).
     - cbn in Hc. destruct (ww_readdir w' p) as [names'|] eqn:R'; [discriminate|].
-      destruct o as [d|d n|d|q|q]; try discriminate; cbn [obs_path] in Hpath; subst d; cbn [answer_of]; now rewrite R, R'.
+      destruct o as [d|d n|d|q|q|d n]; try discriminate; cbn [obs_path] in Hpath; subst d; cbn [answer_of]; now rewrite R, R'.
   Qed.
 End Dir.
 
@@ -359,7 +367,7 @@ Section File.
     file_inv (vstep w p v o) (done ++ [o]).
   Proof.
     intros Hf Hv. destruct Hcoh as [Ht Hfalse].
-    destruct o as [d|d n|d|q|q]; try discriminate; cbn [vstep].
+    destruct o as [d|d n|d|q|q|d n]; try discriminate; cbn [vstep].
     - (* ReadFile *)
       destruct Hv as [[Hv Hd]|(r & Hv & Hi)]; subst v.
       + subst done. unfold file_inv. eexists. split; [reflexivity|]. cbn [wd_state wd_key wd_contents wd_zero].
@@ -457,7 +465,7 @@ Section File.
         destruct (Hfalse' Hc) as ((e' & He') & (e2' & He2')).
         split; [right; left; eauto | right; eauto]. }
     destruct Hans as [Hrd Hmk].
-    destruct o as [d|d n|d|q|q]; try discriminate; cbn [obs_path] in Hpath; subst q; cbn [answer_of].
+    destruct o as [d|d n|d|q|q|d n]; try discriminate; cbn [obs_path] in Hpath; subst q; cbn [answer_of].
     - destruct Hrd as [E|[(e & e' & E1 & E2)|[Hn _]]].
       + now rewrite E.
       + now rewrite E1, E2.
@@ -483,17 +491,16 @@ Definition file_hyps (w w' : wworld) (p : path) : Prop :=
   (forall k, ww_modkey w p = MKOk k -> ww_modkey w' p = MKOk k -> ww_read w' p = ww_read w p) /\
   (forall k, ww_modkey w' p = MKOk k -> k <> []).
 
-Lemma watch_covers_observations_all w w' log :
+Lemma watch_covers_nonkind w w' log :
   (forall o, In o log -> wf_path log (obs_path o)) ->
   (forall o, In o log -> is_file_op o = true -> file_hyps w w' (obs_path o)) ->
   clean w' (finalize w (record w log)) = true ->
-  all_same w w' log = true.
+  forall o, In o log -> is_kind_op o = false -> answer_of w o = answer_of w' o.
 Proof.
-  intros Hwf Hfile Hclean. unfold all_same. apply forallb_forall. intros o Hin.
+  intros Hwf Hfile Hclean o Hin Hnk.
   remember (obs_path o) as p eqn:Hp.
   assert (Hproj : In o (proj p log)) by (apply filter_In; split; [exact Hin|subst p; apply Z.eqb_refl]).
   pose proof (view_record w p log) as Hview.
-  assert (E : answer_of w o = answer_of w' o); [|rewrite E; apply answer_eqb_refl].
   pose proof (Hwf o Hin) as W. rewrite <- Hp in W.
   destruct W as [(rest & Hops & Hrest)|Hf].
   - (* directory *)
@@ -513,6 +520,7 @@ Proof.
     + exact Hproj.
     + now symmetry.
     + exact Hdo.
+    + exact Hnk.
   - (* file *)
     assert (Hfo : is_file_op o = true) by (rewrite forallb_forall in Hf; now apply Hf).
     pose proof (Hfile o Hin Hfo) as C. rewrite <- Hp in C. destruct C as (C1 & C2 & C3 & C4).
@@ -531,6 +539,65 @@ Proof.
     + exact Hfo.
 Qed.
 
+(* ---------- entry kinds ----------
+   Entry.Kind / Entry.Symlink leave no watch record.  For a plain entry (no
+   symlink involved) the answer is nevertheless determined by observations
+   that ARE recorded, because of how the resolver uses it: the entry came from
+   a Get on the directory, an entry found to be a file is then read, an entry
+   found to be a directory is then listed. *)
+Definition kind_hyps (child : path -> name -> path) (w : wworld) (d : path) (n : name) : Prop :=
+  snd (ww_kind w d n) = None /\                                   (* no symlink resolution *)
+  (fst (ww_kind w d n) = 2 <-> ww_isfile w (child d n) = true) /\
+  (fst (ww_kind w d n) = 1 <-> ww_readdir w (child d n) <> None) /\
+  (fst (ww_kind w d n) = 0 \/ fst (ww_kind w d n) = 1 \/ fst (ww_kind w d n) = 2) /\
+  (forall names, ww_readdir w d = Some names ->
+     (fst (ww_kind w d n) <> 0 <-> name_in (lower n) (map lower names) = true)) /\
+  (ww_readdir w d = None -> fst (ww_kind w d n) = 0).
+
+Definition kind_companions (child : path -> name -> path) (log : list obs) (w : wworld) (d : path) (n : name) : Prop :=
+  In (OGet d n) log /\
+  (fst (ww_kind w d n) = 2 -> In (OReadFile (child d n)) log) /\
+  (fst (ww_kind w d n) = 1 -> In (OReadDir (child d n)) log).
+
+Lemma watch_covers_observations_all (child : path -> name -> path) w w' log :
+  (forall o, In o log -> wf_path log (obs_path o)) ->
+  (forall o, In o log -> is_file_op o = true -> file_hyps w w' (obs_path o)) ->
+  (forall d n, In (OKind d n) log ->
+     kind_hyps child w d n /\ kind_hyps child w' d n /\ kind_companions child log w d n) ->
+  clean w' (finalize w (record w log)) = true ->
+  all_same w w' log = true.
+Proof.
+  intros Hwf Hfile Hkind Hclean. unfold all_same. apply forallb_forall. intros o Hin.
+  assert (E : answer_of w o = answer_of w' o); [|rewrite E; apply answer_eqb_refl].
+  destruct (is_kind_op o) eqn:K; [|now apply (watch_covers_nonkind w w' log)].
+  destruct o as [d|d n|d|q|q|d n]; try discriminate.
+  destruct (Hkind d n Hin) as ((S1 & F1 & D1 & T1 & P1 & U1) & (S2 & F2 & D2 & T2 & P2 & U2) & (CG & CF & CD)).
+  pose proof (watch_covers_nonkind w w' log Hwf Hfile Hclean) as NK.
+  cbn [answer_of]. rewrite S1, S2. f_equal.
+  destruct T1 as [T1|[T1|T1]].
+  - (* not an entry (or neither file nor directory) on w: the Get observation pins presence *)
+    pose proof (NK (OGet d n) CG eq_refl) as G. cbn [answer_of] in G.
+    rewrite T1. symmetry.
+    destruct (ww_readdir w d) as [names|] eqn:R; destruct (ww_readdir w' d) as [names'|] eqn:R'; try discriminate.
+    + inversion G as [G1].
+      destruct (Z.eq_dec (fst (ww_kind w' d n)) 0) as [Z0|NZ]; [exact Z0|exfalso].
+      apply (P2 names' eq_refl) in NZ. rewrite <- G1 in NZ. apply (P1 names eq_refl) in NZ. contradiction.
+    + now apply U2.
+  - (* a directory on w: it was listed *)
+    pose proof (NK (OReadDir (child d n)) (CD T1) eq_refl) as G. cbn [answer_of] in G.
+    rewrite T1. symmetry. apply D2. apply D1 in T1.
+    destruct (ww_readdir w (child d n)); [|contradiction].
+    destruct (ww_readdir w' (child d n)); [discriminate|discriminate].
+  - (* a file on w: it was read *)
+    pose proof (NK (OReadFile (child d n)) (CF T1) eq_refl) as G. cbn [answer_of] in G.
+    rewrite T1. symmetry. apply F2. apply F1 in T1.
+    destruct (Hfile (OReadFile (child d n)) (CF (proj2 F1 T1)) eq_refl) as ((Ct & _) & (Ct' & Cf') & _).
+    cbn [obs_path] in *.
+    destruct (Ct T1) as ((c & Hc) & _). rewrite Hc in G.
+    destruct (ww_isfile w' (child d n)) eqn:I'; [reflexivity|exfalso].
+    destruct (Cf' eq_refl) as ((e & He) & _). rewrite He in G. discriminate.
+Qed.
+
 (* ---------- the statement without the "never both" hypothesis is false ----------
    finding F: the directory 1 is listed, entry "b.ts" is looked up and absent,
    then path 1 is read as a file (EISDIR): the record of the directory becomes
@@ -539,11 +606,43 @@ Qed.
 Definition f_bts : name := [98; 46; 116; 115].
 Definition f_bjs : name := [98; 46; 106; 115].
 Definition f_w : wworld :=
-  mkWw (fun p => if p =? 1 then Some [f_bjs] else None) (fun _ => RdErr 21) (fun p => if p =? 1 then MKOk [1;1] else MKErr 2) (fun _ => false).
+  mkWw (fun p => if p =? 1 then Some [f_bjs] else None) (fun _ => RdErr 21) (fun p => if p =? 1 then MKOk [1;1] else MKErr 2) (fun _ => false) (fun _ _ => (0, None)).
 Definition f_w' : wworld :=
-  mkWw (fun p => if p =? 1 then Some [f_bjs; f_bts] else None) (fun _ => RdErr 21) (fun p => if p =? 1 then MKOk [1;2] else MKErr 2) (fun _ => false).
+  mkWw (fun p => if p =? 1 then Some [f_bjs; f_bts] else None) (fun _ => RdErr 21) (fun p => if p =? 1 then MKOk [1;2] else MKErr 2) (fun _ => false) (fun _ _ => (0, None)).
 Definition f_log : list obs := [OReadDir 1; OGet 1 f_bts; OModKey 1; OReadFile 1].
 
 Lemma watch_unrestricted_refuted :
   clean f_w' (finalize f_w (record f_w f_log)) = true /\ all_same f_w f_w' f_log = false.
+Proof. split; vm_compute; reflexivity. Qed.
+
+(* finding G: directory 1 has the entry link.js, a symlink.  On w it resolves
+   to file 5 (x.js), which the build reads; on w' the link was re-pointed to
+   file 6 (y.js).  Nothing that was recorded changed. *)
+Definition g_link : name := [108; 105; 110; 107; 46; 106; 115].
+Definition g_world (target : Z) : wworld :=
+  mkWw (fun p => if p =? 1 then Some [g_link] else None)
+       (fun p => if (p =? 5) || (p =? 6) then RdOk (p * 10) else RdErr 2)
+       (fun p => if (p =? 5) || (p =? 6) then MKOk [p; 1] else MKErr 2)
+       (fun p => (p =? 5) || (p =? 6))
+       (fun d n => if (d =? 1) && name_eqb n g_link then (2, Some target) else (0, None)).
+Definition g_log : list obs := [OReadDir 1; OGet 1 g_link; OKind 1 g_link; OModKey 5; OReadFile 5].
+
+Lemma watch_symlink_retarget_refuted :
+  clean (g_world 6) (finalize (g_world 5) (record (g_world 5) g_log)) = true /\
+  all_same (g_world 5) (g_world 6) g_log = false.
+Proof. split; vm_compute; reflexivity. Qed.
+
+(* finding G2: the link is dangling on w (kind 0: EvalSymlinks fails) and the
+   build stops there; on w' its target exists *)
+Definition g2_world (dangling : bool) : wworld :=
+  mkWw (fun p => if p =? 1 then Some [g_link] else None)
+       (fun p => if (p =? 5) && negb dangling then RdOk 50 else RdErr 2)
+       (fun p => if (p =? 5) && negb dangling then MKOk [5; 1] else MKErr 2)
+       (fun p => (p =? 5) && negb dangling)
+       (fun d n => if (d =? 1) && name_eqb n g_link then (if dangling then (0, None) else (2, Some 5)) else (0, None)).
+Definition g2_log : list obs := [OReadDir 1; OGet 1 g_link; OKind 1 g_link].
+
+Lemma watch_dangling_symlink_refuted :
+  clean (g2_world false) (finalize (g2_world true) (record (g2_world true) g2_log)) = true /\
+  all_same (g2_world true) (g2_world false) g2_log = false.
 Proof. split; vm_compute; reflexivity. Qed.
